@@ -1032,27 +1032,23 @@ theorem ITier.eraseRegion_name {t t' : ITier Int} {a b : Int} {m : EraseMode} {s
   unfold ITier.eraseRegion at h
   obtain ⟨mt, _, h⟩ := bind_ok h
   obtain ⟨nt, hn, h⟩ := bind_ok h
+  obtain ⟨nt1, hc, h⟩ := bind_ok h
   dsimp only at h
   split at h
-  · have := pure_ok h; subst this; rw [ITier.new_name hn]; rfl
-  · obtain ⟨nt1, hc, h⟩ := bind_ok h
-    split at h
-    · rw [shrinkStep] at h
-      rw [ITier.new_name h, eraseCore_name hc, ITier.new_name hn]; rfl
-    · have := pure_ok h; subst this; rw [eraseCore_name hc, ITier.new_name hn]; rfl
+  · rw [shrinkStep] at h
+    rw [ITier.new_name h, eraseCore_name hc, ITier.new_name hn]; rfl
+  · have := pure_ok h; subst this; rw [eraseCore_name hc, ITier.new_name hn]; rfl
 
 theorem PTier.eraseRegion_name {t t' : PTier Int} {a b : Int} {sh : Bool}
     (h : t.eraseRegion a b sh = .ok t') : t'.name = t.name := by
   unfold PTier.eraseRegion at h
   obtain ⟨nt, hn, h⟩ := bind_ok h
   obtain ⟨ct, _, h⟩ := bind_ok h
+  obtain ⟨ps0, _, h⟩ := bind_ok h
   dsimp only at h
   split at h
+  · rw [PTier.new_name h]; rw [PTier.new_name hn]; rfl
   · have := pure_ok h; subst this; rw [PTier.new_name hn]; rfl
-  · obtain ⟨ps0, _, h⟩ := bind_ok h
-    split at h
-    · rw [PTier.new_name h]; rw [PTier.new_name hn]; rfl
-    · have := pure_ok h; subst this; rw [PTier.new_name hn]; rfl
 
 theorem ITier.insertSpace_name {t t' : ITier Int} {s d : Int} {m : SpaceMode}
     (h : t.insertSpace s d m = .ok t') : t'.name = t.name := by
